@@ -49,6 +49,7 @@ type Spec struct {
 	lastHash string // last directory digest
 	hashMustHold bool
 	mute         bool
+	reopened     bool // the handle was closed / abandoned and reopened at least once
 }
 
 // failedWrite: a write call that returned an error, with the sweep taken just before it
@@ -79,7 +80,29 @@ func (s *Spec) fail(e *Exec, prop, format string, a ...interface{}) {
 		return // replay of a recorded (pinned release) history: its results are not judged
 	}
 	s.fails++
-	fmt.Fprintf(e.w, "! %s %s\n", prop, fmt.Sprintf(format, a...))
+	msg := fmt.Sprintf(format, a...)
+	fmt.Fprintf(e.w, "! %s %s\n", prop, msg)
+	// the same failing history also violates the property whose scenario it is:
+	//  - what is read after a close/reopen (or an abandoned handle) contradicts what was accepted
+	//    before it: C04 (and the stored layout did not survive: C18 judges that with its walker);
+	//  - the CONTENT read back is not the transformed / canonical form of what was accepted: C15
+	//    (Transform gate) and C16 (case constraints) when their scenario is being run
+	extra := map[string]bool{}
+	if s.reopened && (prop == "C01" || prop == "C02" || prop == "C03" || prop == "C13" || prop == "C16") {
+		extra["C04"] = true
+	}
+	if (s.prop == "C15" || s.prop == "C16") && (prop == "C01" || prop == "C02" || prop == "C03" || prop == "C07") {
+		extra[s.prop] = true
+	}
+	if s.cfg.Async && (prop == "C01") {
+		extra["C10"] = true
+	}
+	delete(extra, prop)
+	for _, x := range []string{"C04", "C10", "C15", "C16"} {
+		if extra[x] {
+			fmt.Fprintf(e.w, "! %s [%s] %s\n", x, prop, msg)
+		}
+	}
 }
 
 // canon: expected stored form of a record: Transform, case transforms, then Validate verdict
@@ -402,6 +425,7 @@ func (s *Spec) Check(e *Exec, t []string) {
 		}
 	case "reopen":
 		s.results = map[int]*specRes{}
+		s.reopened = true
 	}
 }
 
@@ -503,6 +527,12 @@ func (s *Spec) checkBatch(e *Exec, t, r []string, fresh []int) {
 	}
 	if r[0] != want || r[1] != strconv.Itoa(n) {
 		s.fail(e, "C07", "%s: got (%s,%s) want (%s,%d)", t[0], r[0], r[1], want, n)
+		if want == "invalid" || r[0] == "invalid" {
+			s.fail(e, "C15", "%s: got (%s,%s) want (%s,%d): the Validate gate of the batch path", t[0], r[0], r[1], want, n)
+		}
+		if want == "unique" || r[0] == "unique" {
+			s.fail(e, "C03", "%s: got (%s,%s) want (%s,%d): uniqueness on the batch path", t[0], r[0], r[1], want, n)
+		}
 	}
 }
 
@@ -818,11 +848,48 @@ func (s *Spec) stateOracles(e *Exec, t, r []string) {
 			}
 		}
 	case "fs":
+		s.noGhostFile(e)
 		s.agreement(e)
-	case "del", "delall", "sdel", "repair", "reopen", "close", "create", "commit", "flushall", "flushallc", "tick":
+	case "repair":
+		if e.repairTouched && !s.faulted && s.crashCtx == "" {
+			s.fail(e, "C11", "Repair modified, added or deleted an object file (digest of the directory entries other than schema.json changed)")
+		}
+		s.lastSweep = ""
+		s.pending = nil
+	case "del", "delall", "sdel", "reopen", "close", "create", "commit", "flushall", "flushallc", "tick":
 		s.lastSweep = ""
 		if t[0] != "close" && t[0] != "reopen" {
 			s.pending = nil
+		}
+	}
+}
+
+// noGhostFile: a directory listing must not show an object file of an object that was deleted
+// (or never accepted): "an object deleted while its write is pending never appears on disk
+// afterwards" (C10), and the stored objects are exactly the accepted ones (C01). Only judged when
+// no fault, crash or outside modification of the directory happened in the history.
+func (s *Spec) noGhostFile(e *Exec) {
+	if s.off || s.faulted || s.crashCtx != "" || s.mute {
+		return
+	}
+	for _, l := range e.obs {
+		f := strings.Fields(l)
+		if len(f) >= 3 && f[0] == "s" && f[1] == "file" && strings.HasPrefix(f[2], "U") {
+			name := f[2]
+			if i := strings.IndexByte(name, '.'); i >= 0 {
+				name = name[:i]
+			}
+			u, err := strconv.Atoi(name[1:])
+			if err != nil {
+				continue
+			}
+			if _, ok := s.live[u]; !ok {
+				prop := "C01"
+				if e.cfg.Async {
+					prop = "C10"
+				}
+				s.fail(e, prop, "the directory holds a file of object #%d, which was deleted or never accepted", u)
+			}
 		}
 	}
 }
